@@ -485,3 +485,18 @@ MUTATIONS += [
     dict(id="C12-merge-loop-last-group-dropped", prop="C12", file=TRF2, old="                // no node left to proceed, merge nodes and quit\n                tree.add(merge_nodes(be, index, nodes, cmp, save, summary)?);\n                break;", new="                // no node left to proceed, merge nodes and quit\n                break;"),
     dict(id="C12-merge-loop-next-from-wrong-input", prop="C12", file=TRF2, old="        if let Some(next_node) = tree_iters[num].next() {", new="        if let Some(next_node) = tree_iters[0].next() {"),
 ]
+
+FGF = "crates/core/src/commands/forget.rs"
+MUTATIONS += [
+    dict(id="C09-equal-day-by-day-of-month", prop="C09", file=FGF, old="sn1.time.day_of_year() == sn2.time.day_of_year()", new="sn1.time.day() == sn2.time.day()"),
+]
+HARMLESS += [
+    # the same day, expressed by month and day of month
+    dict(id="H-C09-equal-day-by-month-and-day", prop="C09", file=FGF, old="equal_year(sn1, sn2) && sn1.time.day_of_year() == sn2.time.day_of_year()", new="equal_month(sn1, sn2) && sn1.time.day() == sn2.time.day()"),
+]
+
+CAF = "crates/core/src/backend/cache.rs"
+MUTATIONS += [
+    dict(id="C19-cache-read-partial-from-start", prop="C19", file=CAF, old="            .seek(SeekFrom::Start(u64::from(offset)))", new="            .seek(SeekFrom::Start(0))"),
+    dict(id="C19-cache-read-partial-short-hit", prop="C19", file=CAF, old="        let mut vec = vec![0; length as usize];\n\n        file.read_exact(&mut vec).map_err(|err| {", new="        let mut vec = Vec::with_capacity(length as usize);\n\n        _ = file.take(u64::from(length)).read_to_end(&mut vec).map_err(|err| {"),
+]
